@@ -1820,8 +1820,22 @@ aiff_read_chanmap (SF_PRIVATE * psf, unsigned dword)
 
 static int
 aiff_set_chunk (SF_PRIVATE *psf, const SF_CHUNK_INFO * chunk_info)
-{	/* The header parser gives up at a marker that is not four printable characters. */
+{	/*
+	** Chunks this file writes and parses itself : a second copy from the application
+	** would be taken for the real one when the file is read. APPL is not in the list :
+	** it is the chunk the format provides for application data.
+	*/
+	static const uint32_t reserved [] =
+	{	FORM_MARKER, COMM_MARKER, SSND_MARKER, PEAK_MARKER, MARK_MARKER, INST_MARKER,
+		CHAN_MARKER, c_MARKER, NAME_MARKER, AUTH_MARKER, ANNO_MARKER, COMT_MARKER,
+		basc_MARKER, NONE_MARKER
+		} ;
+
+	/* The header parser gives up at a marker that is not four printable characters. */
 	if (! psf_chunk_id_is_printable (chunk_info))
+		return SFE_BAD_CHUNK_MARKER ;
+
+	if (psf_chunk_id_is_one_of (chunk_info, reserved, ARRAY_LEN (reserved)))
 		return SFE_BAD_CHUNK_MARKER ;
 
 	return psf_save_write_chunk (&psf->wchunks, chunk_info) ;
